@@ -189,9 +189,10 @@ fn gen_block<B: ToTokens>(
                 // If any parameters have the same name as a custom field, skip
                 // and allow them to be formatted by the custom field.
                 if let Some(ref fields) = args.fields {
+                    // (Only a single-segment custom field can have "the same name"
+                    // as a parameter; a dotted name such as `id.x.id` is another field.)
                     fields.0.iter().all(|Field { ref name, .. }| {
-                        let first = name.first();
-                        first != name.last() || !first.iter().any(|name| name == &param)
+                        name.len() != 1 || !name.first().iter().any(|name| name == &param)
                     })
                 } else {
                     true
